@@ -490,7 +490,9 @@ class FieldWrapper(Wrapper):
             logger.debug("we're parsing a tuple!")
             # argparse always returns lists by default. If the field was of a
             # Tuple type, we just transform the list to a Tuple.
-            if not isinstance(raw_parsed_value, tuple):
+            # (`None` is what an absent, non-required tuple field holds, e.g. inside an
+            # `Optional[SomeDataclass] = None` member: leave it alone.)
+            if raw_parsed_value is not None and not isinstance(raw_parsed_value, tuple):
                 return tuple(raw_parsed_value)
 
         elif self.is_bool:
